@@ -22,14 +22,14 @@ import (
 type BugFlags uint
 
 const (
-	BugEntryAtZero     BugFlags = 1 << iota // execution starts at line 0, the entry is ignored
-	BugLabelEntryLost                       // labels written immediately before the `entry` line are dropped
-	BugMacroNoSubst                         // macro parameters are not substituted
-	BugMacroSkipAfter                       // the line following a macro call is never examined for expansion
-	BugMacroNested                          // macro calls inside a macro body are not expanded
-	BugMacroLabelLost                       // labels written immediately before a macro call are dropped
-	BugDbDecimalWide                        // `db <decimal>` emits the 8 bytes of a 64-bit number instead of one byte
-	bugAll             = 7
+	BugEntryAtZero    BugFlags = 1 << iota // execution starts at line 0, the entry is ignored
+	BugLabelEntryLost                      // labels written immediately before the `entry` line are dropped
+	BugMacroNoSubst                        // macro parameters are not substituted
+	BugMacroSkipAfter                      // the line following a macro call is never examined for expansion
+	BugMacroNested                         // macro calls inside a macro body are not expanded
+	BugMacroLabelLost                      // labels written immediately before a macro call are dropped
+	BugDbDecimalWide                       // `db <decimal>` emits the 8 bytes of a 64-bit number instead of one byte
+	bugAll            = 7
 )
 
 var bugSignature = map[BugFlags]string{
